@@ -102,10 +102,11 @@ PROPS = {
     ),
     "C19": dict(
         group="search", level="exploration", rule=SCHED_RULE + " Non-trivial additionally requires >= 2 published shard-set snapshots during the run.",
-        harnesses=[dict(name="C19", quick=4000, thorough=250000, quick_deadline_s=170, thorough_deadline_s=1500, crash_is_violation=True)],
+        harnesses=[dict(name="C19", quick=4000, thorough=250000, quick_deadline_s=120, thorough_deadline_s=1200, crash_is_violation=True),
+                   dict(name="C19/gc", quick=1200, thorough=60000, quick_deadline_s=90, thorough_deadline_s=900, crash_is_violation=True, env={"VERIF_GCOFF": "1", "VERIF_MEMLIMIT_MB": "6000"})],
         expect_faults=["dropped", "delayed", "duplicated", "overflow"],
         components={"real": ["search.DirectoryWatcher scan/watch", "loader", "shardedSearcher.replace/getLoaded/Search/StreamSearch/List", "index shard reader on real mmap'ed files in a tmpfs directory", "index.SetTombstone/UnsetTombstone"], "stub": ["fsnotify (simfsn: drop/delay/duplicate/overflow)", "goroutine scheduling", "sync/atomic primitives", "wall clock (file mtimes come from the fake clock)", "the indexer is a harness task that writes prepared shard images by temp-file+rename through simos"]},
-        assumptions=COMMON_ASSUME + ["A-mtime: two versions of one shard path never get the same mtime (the simulated indexer advances the fake clock >= 1 ms between changes)", "GC/finalizer timing is not controlled in this harness (real GC); a use-after-unmap shows up as a reproducible worker crash, which is reported as a violation"],
+        assumptions=COMMON_ASSUME + ["A-mtime: two versions of one shard path never get the same mtime (the simulated indexer advances the fake clock >= 1 ms between changes)", "gc sub-mode: GOGC is off and the collector runs only at scheduler-chosen points, each followed by a finalizer drain (replaced shards that nothing references are closed = unmapped there); a use-after-unmap shows up as a reproducible worker crash (SIGSEGV) or as bytes of another shard in a result, both reported as violations; the set of finalizers run at a GC point was deterministic in all self-tests, should that ever not hold the replay confirmation fails and the run is reported as a harness error, not a verdict", "the plain sub-mode leaves GC timing to the runtime"],
         technique="deterministic simulation: seeded schedules of a simulated indexer process changing a real directory (create/replace by rename, delete, tombstone sidecars) against the real watcher+loader+sharded searcher with injected notification loss/delay/duplication/overflow on a fake clock; every answer linearised to one published shard-set snapshot; bounded-liveness convergence check",
         level_text="A simulated indexer performs 1-8 directory changes (new shard version by temp+rename, delete, set/unset tombstone sidecar of a compound shard) at fake-clock instants while 1-3 clients search/stream/list and fsnotify events are dropped, delayed up to 90 s, duplicated or turned into overflow errors. Checked: each answer equals exactly the documents of the repository versions in ONE shard-set snapshot that was published during the call (never two versions of a path, never a half-applied replace, each version complete); published snapshots only hold versions that were complete on disk, one per repository; no panic/corrupt result/crash count after the initial load; and within 61 simulated seconds after the last change (faults stopped) the loaded set equals the live repositories on disk and a search agrees.",
         level_note="Samples schedules/histories. Worker processes that die (e.g. SIGSEGV from a shard unmapped while in use) are re-run run-by-run and a reproducible death is a violation.",
